@@ -1,8 +1,71 @@
+import DeapModel.Core.Crowding
 import Driver.Proto
-/-! Protocol handler for C05 (stub until the model is built). -/
+/-!
+Protocol handler for C05 (NSGA-II selection).
+
+* `crowd <vals>`   exact crowding distances of one front (`inf` or a rational), in input order
+* `crowdf <vals>`  the same, as `m<mask of infinities> <finite distances as float bit patterns>`
+* `cut <fronts> <dists> <k>`  emo.py:44-50 on fronts given as id lists, with the distances of the last front
+* `sel <weights> <pop> <k> <nd>`  whole `selNSGA2` (`nd` = `std` | `log`): ids in the order returned
+-/
 namespace DriverC05
+open Proto NDSort Crowding
+
+def parseDist (s : String) : Option (Dist Rat) :=
+  if s = "inf" then some none else (parseRat s).map some
+
+def showDist : Dist Rat → String
+  | none => "inf"
+  | some q => showRat q
+
+def ratToFloat (q : Rat) : Float := Float.ofInt q.num / Float.ofNat q.den
+
+def wellFormed (ws : List (List Rat)) (lo : Nat) : Bool :=
+  match ws with
+  | [] => true
+  | w :: _ => decide (lo ≤ w.length) && ws.all (fun v => v.length == w.length)
+
+def mkPop (ws : List (List Rat)) : List (Ind Rat) :=
+  (List.range ws.length).zipWith (fun i w => ⟨i, w⟩) ws
+
+def showIds (l : List (Ind Rat)) : String := showList toString (l.map (·.id))
 
 def handle : List String → String
+  | ["crowd", vs] =>
+    match (parseList2 parseRat vs).bind (fun v => if wellFormed v 1 then some v else none) with
+    | some v => showList showDist (assignCrowdingDist v)
+    | none => "bad-op"
+  | ["crowdf", vs] =>
+    match (parseList2 parseRat vs).bind (fun v => if wellFormed v 1 then some v else none) with
+    | some v =>
+      let d := assignCrowdingDist v
+      "m" ++ showBits (d.map (fun (x : Dist Rat) => x.isNone)) ++ " " ++ showList (fun q => showFloat (ratToFloat q)) (d.filterMap id)
+    | none => "bad-op"
+  | ["cut", fs, ds, ks] =>
+    match (do
+      let ids ← parseList2 parseNat fs
+      let d ← parseList parseDist ds
+      let k ← parseNat ks
+      let fronts : List (List (Ind Rat)) := ids.map (fun f => f.map (fun i => ⟨i, []⟩))
+      if (fronts.getLast?.getD []).length != d.length then none
+      pure (fronts, d, k)) with
+    | some (fronts, d, k) => showIds (cutWith fronts d k)
+    | none => "bad-op"
+  | ["sel", wss, ps, ks, nd] =>
+    match (do
+      let w ← parseList parseRat wss
+      let ws ← parseList2 parseRat ps
+      let k ← parseNat ks
+      if !(nd = "std" || nd = "log") then none
+      if !(wellFormed ws (if nd = "log" then 2 else 1)) then none
+      if ws.any (fun v => v.length != w.length) || w.any (· == 0) then none
+      if nd = "log" && ws.isEmpty then none
+      pure (w, mkPop ws, k)) with
+    | some (w, pop, k) =>
+      match selNSGA2 w pop k (nd = "log") with
+      | some l => showIds l
+      | none => "nonterm"
+    | none => "bad-op"
   | _ => "bad-op"
 
 end DriverC05
